@@ -37,15 +37,17 @@ def overdraft(model: Model, to_date: Optional[date] = None) -> Overdraft:
 
     must_reject: some account is below -1e-10 once *all* rows of an instant are applied (then every ordering inside
                  the instant leaves a debit that drove it negative).
-    must_accept: for every instant and account, balance before + the instant's IN credits - all the instant's debits
-                 is >= 0 (worst case over orderings; transfers received in the same instant do not count).
+    must_accept: for every instant and account, balance before + the instant's IN credits covers the instant's outgoing
+                 transfers, and together with the transfers received in the instant it covers the instant's out-transactions
+                 (acquisitions, then transfers, then disposals of one instant - the order day-granular exports rely on; a
+                 transfer funded by another transfer of the same instant stays unspecified).
     Anything else is unspecified and never alarms.
     """
     per_instant: Dict[datetime, Dict[Account, List[Fraction]]] = {}
 
     def slot(instant: datetime, account: Account) -> List[Fraction]:
-        # [in credits, transfer credits, debits]
-        return per_instant.setdefault(instant, {}).setdefault(account, [Fraction(0), Fraction(0), Fraction(0)])
+        # [in credits, transfer credits, out debits, transfer debits]
+        return per_instant.setdefault(instant, {}).setdefault(account, [Fraction(0), Fraction(0), Fraction(0), Fraction(0)])
 
     for r in model.rows:
         ts = parse_ts(r["ts"])
@@ -59,14 +61,17 @@ def overdraft(model: Model, to_date: Optional[date] = None) -> Overdraft:
         elif r["t"] == "OUT":
             slot(instant, (r["ex"], r["ho"]))[2] += Fraction(r["cout"]) + Fraction(r["cfee"])
         else:
-            slot(instant, (r["fex"], r["fho"]))[2] += Fraction(r["sent"])
+            slot(instant, (r["fex"], r["fho"]))[3] += Fraction(r["sent"])
             slot(instant, (r["tex"], r["tho"]))[1] += Fraction(r["recv"])
     result = Overdraft()
     balance: Dict[Account, Fraction] = {}
     for instant in sorted(per_instant):
-        for account, (cin, ctr, deb) in per_instant[instant].items():
+        for account, (cin, ctr, deb_out, deb_intra) in per_instant[instant].items():
             before = balance.get(account, Fraction(0))
-            if deb > 0 and before + cin - deb < 0:
+            deb = deb_out + deb_intra
+            if deb_intra > 0 and before + cin - deb_intra < 0:
+                result.must_accept = False
+            if deb_out > 0 and before + cin + ctr - deb_intra - deb_out < 0:
                 result.must_accept = False
             after = before + cin + ctr - deb
             balance[account] = after
